@@ -203,7 +203,8 @@ func c01Matrix(r *core.Run, goose string) {
 // functions (the statement × context × position matrix).
 func c01Statements(r *core.Run, goose string) {
 	var pk []*gen.Package
-	for _, a := range gen.InsideAtoms {
+	atoms := append(append([]gen.OutsideAtom{}, gen.InsideAtoms...), gen.AcceptedShapeAtoms()...)
+	for _, a := range atoms {
 		pk = append(pk, gen.AtomPackage("i_", a))
 	}
 	pkgs := pruneToCompile(r, filepath.Join(r.Scratch, "c01-stmt-prune"), pk)
@@ -228,6 +229,9 @@ func c01Statements(r *core.Run, goose string) {
 		judgeRejectedOrFaithful(r, p, verdicts, "c01-stmt-", func(fn string) (string, string, bool) {
 			if strings.HasPrefix(fn, "host_") {
 				return atom, strings.TrimPrefix(fn, "host_"+atom+"_"), true
+			}
+			if fn == atom+"_fn" {
+				return atom, "decl", true
 			}
 			return "", "", false
 		})
